@@ -18,14 +18,16 @@ Import ListNotations.
 From AM Require Import Model.AuditProc Model.Tracker.
 From AM Require Gen.Consts.
 
-Inductive cline := LE | LB | LM (seq : N) (ty : nat) (old : bool).
+(* record types are written as binary numbers (N): unary literals like 1327 would dominate the
+   time Coq needs to read a case file *)
+Inductive cline := LE | LB | LM (seq : N) (ty : N) (old : bool).
 Record cm := { c_idx : nat; c_seq : N; c_ty : nat; c_old : bool }.
 Definition iline := (nat * cline)%type.
 
 Definition c_empty (l : iline) : bool := match snd l with LE => true | _ => false end.
 Definition c_parse (l : iline) : option cm :=
   match snd l with
-  | LM s t o => Some {| c_idx := fst l; c_seq := s; c_ty := t; c_old := o |}
+  | LM s t o => Some {| c_idx := fst l; c_seq := s; c_ty := N.to_nat t; c_old := o |}
   | _ => None
   end.
 
